@@ -244,6 +244,11 @@ KINDS = {
     "Operator.Word": ("Token", "Operator", "Operator.Word"),
     "Comment": ("Token", "Comment"),
     "Comment.Single": ("Token", "Comment", "Comment.Single"),
+    "Comment.Multiline": ("Token", "Comment", "Comment.Multiline"),
+    "Comment.Preproc": ("Token", "Comment", "Comment.Preproc"),
+    "Comment.PreprocFile": ("Token", "Comment", "Comment.PreprocFile"),
+    "Comment.Hashbang": ("Token", "Comment", "Comment.Hashbang"),
+    "Comment.Special": ("Token", "Comment", "Comment.Special"),
     "Text": ("Token", "Text"),
     "Whitespace": ("Token", "Text", "Text.Whitespace"),   # pygments: Whitespace = Token.Text.Whitespace
     "Literal.String": ("Token", "Literal", "Literal.String"),
@@ -419,9 +424,23 @@ class Interp:
                 return env[n.id]
             if n.id in PYGMENTS_NAMES and fi.module.imports.get(n.id, "").startswith("pygments.token"):
                 return ("kind", PYGMENTS_NAMES[n.id])
+            if n.id in fi.module.assigns:
+                return self.ev(fi.module.assigns[n.id], {}, fi)     # module-level constant
+            o = fi.outer
+            while o is not None:                                    # closure over the enclosing function's parameters
+                if n.id in o.params():
+                    d = o.param_default(n.id)
+                    if d is not None:
+                        return self.ev(d, {}, o)
+                o = o.outer
             raise Unsupported(f"{fi.site(n)}: free name {n.id}")
+        if isinstance(n, (ast.List, ast.Tuple, ast.Set)):
+            return ("coll", [self.ev(e, env, fi) for e in n.elts])
         if isinstance(n, ast.Attribute):
             obj = self.ev(n.value, env, fi)
+            if isinstance(obj, tuple) and obj[0] == "kind":
+                sub = f"{obj[1]}.{n.attr}" if obj[1] != "Token" else n.attr
+                return ("kind", sub)
             if isinstance(obj, PredObj):
                 if n.attr in obj.fields:
                     return obj.fields[n.attr]
@@ -484,6 +503,11 @@ class Interp:
                 return False
             if isinstance(f, ast.Name) and f.id == "len" and len(args) == 1 and isinstance(args[0], str):
                 return len(args[0])
+            if isinstance(f, ast.Name) and f.id in ("frozenset", "set", "tuple", "list") and len(args) == 1 and isinstance(args[0], tuple) and args[0][0] == "coll":
+                return args[0]
+            if isinstance(f, ast.Name) and f.id in fi.nested if hasattr(fi, "nested") else False:
+                sub = fi.nested[f.id]
+                return self.run(sub, dict(zip(sub.params(), args)))
             if isinstance(f, ast.Name) and f.id == "str" and len(args) == 1:
                 a = args[0]
                 if isinstance(a, tuple) and a[0] == "tt":
@@ -498,6 +522,12 @@ class Interp:
         if isinstance(op, ast.In):
             if isinstance(a, tuple) and a[0] == "tt" and isinstance(b, tuple) and b[0] == "kind":
                 return b[1] in KINDS[a[1]] or b[1] == KINDS[a[1]][-1]
+            if isinstance(a, tuple) and a[0] == "tt" and isinstance(b, tuple) and b[0] == "coll":
+                # membership in a set/tuple of token types is by identity of the exact type
+                exact = KINDS[a[1]][-1]
+                return any(isinstance(x, tuple) and x[0] == "kind" and x[1] == exact for x in b[1])
+            if isinstance(b, tuple) and b[0] == "coll":
+                return any(x == a for x in b[1])
             raise Unsupported(f"{fi.site(n)}: `in` on {a!r}, {b!r}")
         if isinstance(op, ast.NotIn):
             return not self.cmp(ast.In(), a, b, fi, n)
